@@ -246,6 +246,21 @@ pub(crate) fn serialize_attribute<'a, N: Normalizer>(
                 change = true;
                 result.push_str("&quot;")
             }
+            // literal white space other than the space character is turned
+            // into a space by attribute-value normalisation when read back
+            // (https://www.w3.org/TR/xml/#AVNormalize)
+            '\t' => {
+                change = true;
+                result.push_str("&#9;")
+            }
+            '\n' => {
+                change = true;
+                result.push_str("&#10;")
+            }
+            '\r' => {
+                change = true;
+                result.push_str("&#13;")
+            }
             _ => result.push(c),
         }
     }
